@@ -105,6 +105,8 @@ pub struct Sim {
     pub ticks: u64,
     pub budget: u64,
     pub cb: CbPlan,
+    /// drop print-macro output unformatted (while validating generated definitions)
+    pub mute: bool,
 }
 
 impl Sim {
@@ -120,6 +122,7 @@ impl Sim {
             ticks: 0,
             budget: u64::MAX,
             cb: CbPlan::default(),
+            mute: false,
         }
     }
 
@@ -212,6 +215,10 @@ impl bpaf::__verif::World for Delegate {
             s.ticks += 1;
             s.ticks > s.budget
         })
+    }
+
+    fn mute(&mut self) -> bool {
+        with(|s| s.mute)
     }
 }
 
